@@ -120,7 +120,7 @@ def run(tier, seed):
                 configs.append((f"seed{s}", s, "present", 1, 3, work, top, basefile))   # every probe from the pristine state + 3 chains
         for cache in ("absent", "other-start-symbol"):
             configs.append((f"cache-{cache}", seeds[0], cache, 4 if thorough else 1, nprobe if thorough else 3, work, top, basefile))
-        results = pool.pmap(w_config, configs, jobs=4 if not thorough else 6)
+        results = pool.pmap(w_config, configs, jobs=4 if not thorough else 8)
     finally:
         shutil.rmtree(top, ignore_errors=True)
     states = transitions = 0
